@@ -31,7 +31,7 @@ LEVEL_TEXT = ('Bounded-exhaustive: every tree shape up to the node bound, every 
               'pruning invariance is additionally checked with the library alone.')
 LEVEL_NOTE = 'trusted: mc/ref/cell.py (recursive effective-level formulation, pinned by the main-net block root hash which exercises masks 0/1 and a Merkle update)'
 TECHNIQUE = 'small-scope exhaustive enumeration of exotic-cell trees and prune sets against a reference model'
-RULE += " Sixth session - pair histories: for every base shape, every ORDERED pair of distinct trees of its family (the plain tree, the proof of every prune set, the Merkle update of every prune set against the full tree) x routes {BoC parse, Builder} for each: the first tree is realised and kept alive, then the second; both must be the reference's cells (nothing carried over between parses / constructions)."
+RULE += " Sixth session - pair histories: for every base shape, every ORDERED pair of distinct trees of its family (the plain tree, the proof of every prune set, the Merkle update of every prune set against the full tree) x routes {BoC parse of reference bytes, Builder, Builder + the library's own to_boc + parse} for each: the first tree is realised and kept alive, then the second; both must be the reference's cells (nothing carried over between parses / constructions)."
 RULE += " Merkle updates: all 64 (old-side mask, new-side mask) pairs of raw pruned cells below 0..3 Merkle proofs (the update's mask is (old | new) >> 1)."
 ASSUMPTIONS = ['hash/depth payloads of raw pruned cells are seed-derived filler', 'trees beyond the node bound and nesting beyond 3 layers are not explored']
 NOT_ASSERTED = ['rejection of malformed exotic cells (the property only demands that spec-valid cells can be built and report spec values)']
@@ -476,6 +476,19 @@ def _realise(rc, route):
                 raise AssertionError('parsed tree has another shape')
             stack.extend(zip(lc.refs, r.refs))
         return libs
+    if route == 'own-boc':
+        # built with Builder(type_), written by the library's own to_boc, parsed again: a tree that holds a cell AND the pruned branch
+        # standing for it must come back as it went in
+        root = Cell.one_from_boc(to_lib(rc, {}, 'builder').to_boc())
+        if lib_canon(root) != RC.canon(rc):
+            raise AssertionError('the tree parsed from the library\'s own to_boc() is not the tree that was serialised')
+        libs = {}
+        stack = [(root, rc)]
+        while stack:
+            lc, r = stack.pop()
+            libs[(r.hash(), r.special, r.bits)] = lc
+            stack.extend(zip(lc.refs, r.refs))
+        return libs
     libs = {}
     to_lib(rc, libs, route)
     return libs
@@ -547,8 +560,8 @@ def shard_pairs(rec, nmax, part, parts):
             for ib in range(n):
                 if ia == ib:
                     continue
-                for ra in ('boc', 'builder'):
-                    for rb in ('boc', 'builder'):
+                for ra in ('boc', 'builder', 'own-boc'):
+                    for rb in ('boc', 'builder', 'own-boc'):
                         i += 1
                         if i % parts != part:
                             continue
